@@ -63,3 +63,9 @@ Theorem C05_history_steps_reparse : forall args,
   forallb (fun st => beqb (Oracle.step_reparse st) (bs "same"%string)) (Oracle.hist_steps (Oracle.model_hist args)) = true.
 Proof. intros args H. exact (proj2 (OracleSoundViews.hist_views args H)). Qed.
 Print Assumptions C05_history_steps_reparse.
+
+(* the routes by which a value can be obtained (parsers, constructors, mutators, conversions) are the ones the reachability theorems speak about: the regenerated API list equals the modelled one (proofs/ApiSurfaceProofs.v) *)
+From UL Require ApiSurface ApiSurfaceProofs.
+Theorem C05_routes_are_the_modelled_ones : ApiSurface.api_surface = ApiSurfaceProofs.modelled_api.
+Proof. exact ApiSurfaceProofs.api_surface_is_the_modelled_one. Qed.
+Print Assumptions C05_routes_are_the_modelled_ones.
